@@ -104,6 +104,14 @@ def run_driver(lines, mode=None, nproc=NPROC):
 
 
 def _alpha_chunk(pairs):
+    # run in a thread so that the big thread stack (see threading.stack_size above) applies in a spawned worker too
+    box = []
+    t = threading.Thread(target=lambda: box.append(_alpha_chunk_inner(pairs)))
+    t.start(); t.join()
+    return box[0]
+
+
+def _alpha_chunk_inner(pairs):
     out = []
     for c, r in pairs:
         if "in" not in r:
@@ -119,8 +127,10 @@ def _alpha_chunk(pairs):
 def to_driver_lines(cases, recs, nproc=NPROC):
     pairs = list(zip(cases, recs))
     chunks = _chunks(pairs, nproc * 2)
-    with cf.ProcessPoolExecutor(max_workers=nproc) as ex:
-        res = list(ex.map(_alpha_chunk, chunks))
+    # "spawn": never fork a process that has (or had) worker threads - a forked child can inherit a held lock and hang
+    import multiprocessing
+    with cf.ProcessPoolExecutor(max_workers=nproc, mp_context=multiprocessing.get_context("spawn")) as ex:
+        res = list(ex.map(_alpha_chunk, chunks, timeout=7200))
     return [x for ch in res for x in ch]
 
 
